@@ -4,7 +4,7 @@
 From Coq Require Import List ZArith Bool Arith.
 Import ListNotations.
 From RV Require Import Gen.GenTermination Model.Retry Model.Machine Proofs.MachineP.
-From RV Require Import Gen.GenFacts.
+From RV Require Import Gen.GenFactsBuild.
 
 (** For every session (any picks, any outcomes, any initial progress): a build command is run at
     most once. *)
